@@ -1158,3 +1158,134 @@ Proof.
     destruct D as [|d1 [|d2 [|d3 [|? ?]]]]; try discriminate LD.
     reflexivity.
 Qed.
+
+(* ------------------------------------------------------------------ *)
+(* K. an explicit part of the printable domain: integer components     *)
+(* ------------------------------------------------------------------ *)
+From Coq Require Import DecimalFacts DecimalN.
+
+Lemma to_uint_head : forall p u, Pos.to_uint p <> Decimal.D0 u.
+Proof.
+  intros p u E.
+  assert (F : Pos.to_uint p = Decimal.unorm (Pos.to_uint p)).
+  { change (Pos.to_uint p) with (N.to_uint (N.pos p)) at 1.
+    rewrite <- (DecimalN.Unsigned.of_to (N.pos p)) at 1. rewrite DecimalN.Unsigned.to_of. reflexivity. }
+  destruct (Decimal.uint_eq_dec (Decimal.nzhead (Pos.to_uint p)) Decimal.Nil) as [Hn | Hn].
+  - apply unorm_0 in Hn. rewrite Hn in F. exact (Unsigned.to_uint_nonzero p F).
+  - rewrite (unorm_nzhead _ Hn) in F. rewrite E in F at 1. symmetry in F. exact (nzhead_nonzero _ _ F).
+Qed.
+
+Lemma dec_val_nonneg : forall s, all_digits s = true -> 0 <= dec_val s.
+Proof.
+  intros s. unfold dec_val. assert (G : forall a, 0 <= a -> all_digits s = true -> 0 <= dec_acc s a).
+  { induction s; intros a0 Ha H; cbn [dec_acc]; [assumption |].
+    cbn in H. apply andb_true_iff in H. destruct H as [H1 H2]. apply IHs; [|assumption].
+    unfold is_digit in H1. cbv zeta in H1. unfold digit_val. lia. }
+  apply G. lia.
+Qed.
+
+Lemma digits_len_bound : forall c r n, is_digit c = true -> all_digits r = true -> 1 <= digit_val c ->
+  dec_val (String c r) < 10 ^ Z.of_nat n -> (slen (String c r) <= n)%nat.
+Proof.
+  intros c r n Hc Hr H1 Hlt. rewrite dec_val_cons in Hlt.
+  pose proof (dec_val_nonneg r Hr) as Hnn. pose proof (pow10_pos (slen r)) as Hp.
+  assert (10 ^ Z.of_nat (slen r) < 10 ^ Z.of_nat n) by nia.
+  apply Z.pow_lt_mono_r_iff in H; try lia. cbn [slen String.length]. fold (slen r). lia.
+Qed.
+
+Lemma show_Z_len : forall z n, 0 <= z < 10 ^ Z.of_nat n -> (1 <= n)%nat -> (slen (show_Z z) <= n)%nat.
+Proof.
+  intros z n Hz Hn. destruct (show_Z_nonneg z ltac:(lia)) as [H1 [H2 H3]].
+  destruct z as [|p|p]; [cbn; lia | | lia].
+  unfold show_Z in *. cbn [Z.to_int NilZero.string_of_int] in *.
+  pose proof (to_uint_head p) as Hh. pose proof (Unsigned.to_uint_nonnil p) as Hnil.
+  destruct (Pos.to_uint p) as [|u|u|u|u|u|u|u|u|u|u] eqn:Eu; try congruence;
+    try (exfalso; eapply Hh; reflexivity);
+    cbn [NilZero.string_of_uint NilEmpty.string_of_uint] in *;
+    (apply digits_len_bound; [reflexivity | apply nilempty_digits | vm_compute; discriminate | rewrite H3; lia]).
+Qed.
+
+Lemma lstrip0_len : forall s, (slen (lstrip0 s) <= slen s)%nat.
+Proof.
+  unfold slen. induction s; cbn [lstrip0 String.length]; [lia |].
+  destruct (Ascii.eqb a "0"); cbn [String.length]; lia.
+Qed.
+
+Lemma Qred_inject : forall n, Qred (inject_Z n) = inject_Z n.
+Proof.
+  intros. unfold Qred, inject_Z.
+  pose proof (Z.ggcd_gcd n 1) as G. pose proof (Z.ggcd_correct_divisors n 1) as D.
+  destruct (Z.ggcd n 1) as [g [a b]]. cbn [fst snd] in *. rewrite Z.gcd_1_r in G. subst g.
+  destruct D as [D1 D2]. rewrite Z.mul_1_l in D1, D2. subst a. subst b. reflexivity.
+Qed.
+
+Definition is_ok {A} (r : tres A) : bool := match r with TOk _ => true | _ => false end.
+
+Lemma z_unit_defined : forall z u, Z.abs z < 10 ^ 4300 -> is_ok (z_unit z u) = true.
+Proof.
+  intros z u H. unfold z_unit. destruct (z =? 0); [reflexivity |].
+  unfold tmap, tbind, int_str.
+  assert (L : (slen (show_Z (Z.abs z)) <= 4300)%nat).
+  { apply show_Z_len; [|lia]. change (Z.of_nat 4300) with 4300. lia. }
+  apply Nat.leb_le in L. unfold INT_MAX_STR_DIGITS. rewrite L. reflexivity.
+Qed.
+Lemma q_unit_int_defined : forall z u, Z.abs z < 10 ^ 15 -> is_ok (q_unit (inject_Z z) u) = true.
+Proof.
+  intros z u H. unfold q_unit. rewrite Qred_inject.
+  destruct (Qeq_bool (inject_Z z) 0); [reflexivity |]. cbn [inject_Z Qden Qnum Z.eqb Pos.eqb].
+  assert (L : (slen (show_Z (Z.abs z)) <= 15)%nat).
+  { apply show_Z_len; [|lia]. change (Z.of_nat 15) with 15. lia. }
+  assert (F : float_safe (show_Z (Z.abs z)) "" = true).
+  { unfold float_safe. cbn [rstrip0]. rewrite sapp_nil_r.
+    pose proof (lstrip0_len (show_Z (Z.abs z))). apply andb_true_iff. split; [apply Nat.leb_le; lia | reflexivity]. }
+  rewrite F. reflexivity.
+Qed.
+
+Lemma body_int_defined : forall y mo d h mi s,
+  Z.abs y < 10 ^ 4300 -> Z.abs mo < 10 ^ 4300 -> Z.abs d < 10 ^ 4300 ->
+  Z.abs h < 10 ^ 15 -> Z.abs mi < 10 ^ 15 -> Z.abs s < 10 ^ 15 ->
+  is_ok (dur_str_body (DU y mo d (inject_Z h) (inject_Z mi) (inject_Z s))) = true.
+Proof.
+  intros y mo d h mi s Hy Hmo Hd Hh Hmi Hs. cbn [dur_str_body]. unfold tbind.
+  pose proof (z_unit_defined y "Y" Hy). pose proof (z_unit_defined mo "M" Hmo).
+  pose proof (z_unit_defined d "D" Hd). pose proof (q_unit_int_defined h "H" Hh).
+  pose proof (q_unit_int_defined mi "M" Hmi). pose proof (q_unit_int_defined s "S" Hs).
+  destruct (z_unit y "Y"); try discriminate. destruct (z_unit mo "M"); try discriminate.
+  destruct (z_unit d "D"); try discriminate. destruct (q_unit (inject_Z h) "H"); try discriminate.
+  destruct (q_unit (inject_Z mi) "M"); try discriminate. destruct (q_unit (inject_Z s) "S"); try discriminate.
+  reflexivity.
+Qed.
+
+(* every duration with integer components of at most 4300 digits (years,
+   months, days, weeks) and 15 digits (hours, minutes, seconds) is printable *)
+Theorem printable_int_units : forall y mo d h mi s,
+  Z.abs y < 10 ^ 4300 -> Z.abs mo < 10 ^ 4300 -> Z.abs d < 10 ^ 4300 ->
+  Z.abs h < 10 ^ 15 -> Z.abs mi < 10 ^ 15 -> Z.abs s < 10 ^ 15 ->
+  printable (DU y mo d (inject_Z h) (inject_Z mi) (inject_Z s)) = true.
+Proof.
+  intros y mo d h mi s Hy Hmo Hd Hh Hmi Hs. unfold printable, dur_str.
+  destruct (negb (dur_bool _)); [reflexivity |].
+  destruct (fully_negative _).
+  - cbn [dur_abs]. unfold tmap, tbind.
+    assert (A : forall q, Qred (Qabs (inject_Z q)) = inject_Z (Z.abs q)).
+    { intros q. change (Qabs (inject_Z q)) with (inject_Z (Z.abs q)). apply Qred_inject. }
+    rewrite !A.
+    pose proof (body_int_defined (Z.abs y) (Z.abs mo) (Z.abs d) (Z.abs h) (Z.abs mi) (Z.abs s)) as B.
+    rewrite !Z.abs_involutive in B. specialize (B Hy Hmo Hd Hh Hmi Hs).
+    destruct (dur_str_body _); try discriminate. reflexivity.
+  - pose proof (body_int_defined y mo d h mi s Hy Hmo Hd Hh Hmi Hs) as B.
+    destruct (dur_str_body _); try discriminate. reflexivity.
+Qed.
+Theorem printable_weeks : forall w, Z.abs w < 10 ^ 4300 -> printable (DW w) = true.
+Proof.
+  intros w H. unfold printable, dur_str. destruct (negb (dur_bool _)); [reflexivity |].
+  assert (L : forall z, Z.abs z < 10 ^ 4300 -> is_ok (dur_str_body (DW z)) = true).
+  { intros z Hz. cbn [dur_str_body]. unfold tmap, tbind, int_str.
+    assert (L : (slen (show_Z (Z.abs z)) <= 4300)%nat).
+    { apply show_Z_len; [|lia]. change (Z.of_nat 4300) with 4300. lia. }
+    apply Nat.leb_le in L. unfold INT_MAX_STR_DIGITS. rewrite L. reflexivity. }
+  destruct (fully_negative _).
+  - cbn [dur_abs]. unfold tmap, tbind. pose proof (L (Z.abs w)) as B. rewrite Z.abs_involutive in B.
+    specialize (B H). destruct (dur_str_body _); try discriminate. reflexivity.
+  - pose proof (L w H) as B. destruct (dur_str_body _); try discriminate. reflexivity.
+Qed.
